@@ -262,6 +262,15 @@ Theorem C11_fast_leaf_correct : forall k h vals,
 Proof. exact fast_leaf_correct. Qed.
 Print Assumptions C11_fast_leaf_correct.
 
+(* ... also when the one run holds more values than the page has (a last group padded to 8 values: the format's own layout, which the
+   one-run guard of the shortcuts admits): the view keeps the first n *)
+Theorem C11_fast_leaf_prefix : forall k h vals extra,
+  (k = 1 \/ k = 2 \/ k = 4)%nat -> h < 2 ^ 64 ->
+  Forall (fun v => v < 256 ^ N.of_nat k) vals ->
+  fast_read (8 * N.of_nat k) (uleb_enc h ++ fixed_enc k (vals ++ extra)) (N.of_nat (length vals)) = Some vals.
+Proof. exact fast_leaf_prefix. Qed.
+Print Assumptions C11_fast_leaf_prefix.
+
 (* ... as SIGNED integers: a stored index comes back unchanged exactly when its top bit is clear (so encode_dict must announce a
    width whose signed range holds every code: regenerated obligation gen_encode_dict_own_reader); false without that bound *)
 Theorem C11_signed_view_exact : forall k v, (1 <= k)%nat -> v < 2 ^ (8 * N.of_nat k) ->
